@@ -270,6 +270,36 @@ Section GniTie.
       rewrite gni_loop_fuel_mono; [reflexivity|].
       apply (gni_never_out_of_fuel V vsub vstep vavg envs_of stop_sd stop_ril method max_iters X Hr).
     Qed.
+
+    (* the same, spelled out: which outcome of the program corresponds to which result of the model *)
+    Theorem skeleton_get_next_imf_refines : forall f eo xo,
+      (method = Fixed -> (1 <= max_iters)%nat) -> (max_iters + 2 <= f)%nat ->
+      let o := exec gni_prims prog_get_next_imf f (gni_env0 method max_iters use_energy X eo xo) in
+      let m := get_next_imf_gen V vsub vstep vavg envs_of stop_sd stop_ril energy_fires
+                                method max_iters use_energy false X in
+      (forall p flag, o = Return (VList [VSig p; VBool flag]) <-> exists n, m = Imf p flag n) /\
+      (o = Raise "EMDSiftCovergeError" <-> exists n, m = ConvergeError n) /\
+      ((exists p flag, o = Return (VList [VSig p; VBool flag])) \/ o = Raise "EMDSiftCovergeError").
+    Proof.
+      intros f eo xo Hr Hf o m. subst o.
+      rewrite (skeleton_get_next_imf_any_fuel f eo xo Hr Hf). fold m.
+      assert (Hm : m <> GniOutOfFuel).
+      { subst m. unfold get_next_imf_gen.
+        pose proof (gni_never_out_of_fuel V vsub vstep vavg envs_of stop_sd stop_ril method max_iters X Hr) as H.
+        destruct (gni_loop V vsub vstep vavg envs_of stop_sd stop_ril method max_iters false (max_iters + 2) 0 X);
+          [discriminate|discriminate|contradiction]. }
+      destruct m as [p fl n|n|]; [| |contradiction]; cbn [gni_render].
+      - split; [|split].
+        + intros p' fl'. split.
+          * intros H. inversion H; subst. exists n. reflexivity.
+          * intros [n' H]. inversion H; subst. reflexivity.
+        + split; [discriminate|]. intros [n' H]. discriminate.
+        + left. exists p, fl. reflexivity.
+      - split; [|split].
+        + intros p' fl'. split; [discriminate|]. intros [n' H]. discriminate.
+        + split; [intros _; exists n; reflexivity|reflexivity].
+        + right. reflexivity.
+    Qed.
   End Fixed.
 End GniTie.
 
@@ -493,6 +523,18 @@ Section SiftTie.
       destruct acc' as [|a t]; [contradiction|].
       change (imf_binding (a :: t)) with [("imf", mat_val (a :: t))].
       apply sift_suffix.
+    Qed.
+
+    (* peel_loop only looks at (imf, flag) / "raised": any per-residual extraction, e.g. the model's own
+       get_next_imf, gives the same run as the opaque primitive that returns its (imf, flag) *)
+    Lemma peel_extract_of : forall (g : V -> gni_result V),
+      (forall r, ext r = match g r with Imf p fl _ => Some (p, fl) | _ => None end) ->
+      forall f acc, peel_loop V vzero vadd vsub small (fun _ _ r => g r) f cap X acc = peel f cap X acc.
+    Proof.
+      intros g Hg. induction f as [|f IH]; intros acc; [reflexivity|].
+      cbn [peel_loop]. unfold SkeletonPrims.extract_of at 1. rewrite Hg.
+      destruct (g (resid acc)) as [p fl n|n|]; try reflexivity.
+      destruct (_ || _ || _); [reflexivity|apply IH].
     Qed.
   End Fixed.
 End SiftTie.
